@@ -26,7 +26,7 @@ import (
 
 const (
 	// an ACK names a value that is bound (unexpired) to a different client
-	sigV4AckForeign = "C02/v4/ack-foreign-address/" // + unsolicited-REQUEST | after-OFFER
+	sigV4AckForeign = "C02/v4/ack-foreign-address/" // + unsolicited-REQUEST | REQUEST-while-bound | after-OFFER
 	// an ACK names a value that is under an outstanding OFFER to a different client
 	sigV4AckForeignOffer = "C02/v4/ack-foreign-offer/" // + unsolicited-REQUEST | after-OFFER/holder-reoffered-expired-lease | after-OFFER/holder-fresh-offer
 	// an OFFER/ACK names gateway / network / broadcast / reserved address (inside the CIDR, not servable)
@@ -34,7 +34,7 @@ const (
 	// an OFFER/ACK names an address outside the pool's network
 	sigV4Outside = "C02/v4/outside-pool/" // + OFFER | ACK/...
 	// a declined address appears again in an OFFER/ACK
-	sigV4Declined = "C02/v4/declined-offered-again/" // + after-ACK | after-OFFER-only
+	sigV4Declined = "C02/v4/declined-offered-again/" // + after-ACK | after-OFFER-only, + /to-the-decliner | /to-another-client
 	// the lease table holds two unexpired entries with one address
 	sigV4TableDup = "C02/v4/lease-table-duplicate/" // + same-circuit | distinct-clients
 	// a client renewing its own unexpired binding is not answered with the same value
@@ -511,6 +511,13 @@ func (m *v4mon) usableCheck(ip net.IP, what string) bool {
 	return false
 }
 
+func declTo(st *v4val, s v4id) string {
+	if st.same(s) {
+		return "/to-the-decliner"
+	}
+	return "/to-another-client"
+}
+
 func (m *v4mon) onOffer(s v4id, ip net.IP, lease time.Duration, now time.Time) {
 	val := ip.String()
 	if !m.usableCheck(ip, "OFFER") {
@@ -526,7 +533,7 @@ func (m *v4mon) onOffer(s v4id, ip net.IP, lease time.Duration, now time.Time) {
 		return
 	}
 	if st := m.vals[val]; st != nil && st.kind == "declined" {
-		m.fail(sigV4Declined+st.how, "OFFER to %s names %s which was declined (%s) by %s", s.label, val, st.how, st.label)
+		m.fail(sigV4Declined+st.how+declTo(st, s), "OFFER to %s names %s which was declined (%s) by %s", s.label, val, st.how, st.label)
 		return
 	}
 	m.touch(val, s)
@@ -553,7 +560,10 @@ func (m *v4mon) onOffer(s v4id, ip net.IP, lease time.Duration, now time.Time) {
 func (m *v4mon) onAck(s v4id, ip net.IP, lease time.Duration, now time.Time) {
 	val := ip.String()
 	offered := m.offeredTo(s, val, now)
-	shape := "unsolicited-REQUEST"
+	shape := "unsolicited-REQUEST" // from a client that holds nothing
+	if mine, _ := m.boundTo(s.mac, now); mine != "" && mine != val {
+		shape = "REQUEST-while-bound" // from a client that holds a different, unexpired address
+	}
 	if offered {
 		shape = "after-OFFER"
 	}
@@ -571,7 +581,7 @@ func (m *v4mon) onAck(s v4id, ip net.IP, lease time.Duration, now time.Time) {
 	}
 	st := m.vals[val]
 	if st != nil && st.kind == "declined" {
-		m.fail(sigV4Declined+st.how, "ACK to %s names %s which was declined (%s) by %s", s.label, val, st.how, st.label)
+		m.fail(sigV4Declined+st.how+declTo(st, s), "ACK to %s names %s which was declined (%s) by %s", s.label, val, st.how, st.label)
 		return
 	}
 	if st != nil && st.kind == "bound" && now.Before(st.expiry) && !st.same(s) {
@@ -1085,7 +1095,7 @@ func (x *v4run) step(o v4op) bool {
 		x.logf("cleanupTick (inserted: steering around a listed finding)")
 		x.mon.classes["steered:cleanup-before-discover"] = true
 	}
-	steerDecl := !x.allowKF && anyListed(sigV4Declined+"after-ACK", sigV4Declined+"after-OFFER-only")
+	steerDecl := !x.allowKF && anyListed(sigV4Declined+"after-ACK/to-the-decliner", sigV4Declined+"after-OFFER-only/to-the-decliner")
 	switch o.Kind {
 	case "discover":
 		if steerDecl && (x.mon.declBy[s.mac] || x.declinedCircuit(s, relayed)) {
@@ -1714,9 +1724,9 @@ func v4Scenarios() []v4scenario {
 		{"unrecorded-binding-then-offered", sigV4Unrecorded, v4base, []v4op{
 			// c0 INIT-REBOOTs into the first free address (ACKed, but the pool does not record it); c1 is then offered and ACKed the same address
 			{Kind: "request", C: 0, Tr: "direct", Tgt: "random", Aux: 1, Shape: "initreboot"}, d(1)}},
-		{"decline-then-discover", sigV4Declined + "after-ACK", v4base, []v4op{
+		{"decline-then-discover", sigV4Declined + "after-ACK/to-the-decliner", v4base, []v4op{
 			d(0), {Kind: "decline", C: 0, Tr: "direct", Tgt: "mine"}, {Kind: "discover", C: 0, Tr: "direct"}}},
-		{"decline-offer-then-discover", sigV4Declined + "after-OFFER-only", v4base, []v4op{
+		{"decline-offer-then-discover", sigV4Declined + "after-OFFER-only/to-the-decliner", v4base, []v4op{
 			{Kind: "discover", C: 0, Tr: "direct"}, {Kind: "decline", C: 0, Tr: "direct", Tgt: "offer"}, {Kind: "discover", C: 0, Tr: "direct"}}},
 		{"abandoned-offer", sigV4NotAvail + "abandoned-offer", v4base, []v4op{
 			{Kind: "discover", C: 0, Tr: "direct"}, {Kind: "advance", Delta: "full"}, {Kind: "cleanup"}}},
